@@ -245,6 +245,64 @@ def prop_drivers(case, stats):
         _cmp(np.asarray(a), np.asarray(b), 'result of %s depends on how the graph was recorded' % (key,), stats, tol=TOL_REC)
 
 
+def prop_gradient_list(case, stats):
+    """cg.gradient([x1, x2, ...]) for a program of several array-valued inputs returns the list of partial gradients"""
+    pts = case['pts']
+    nin = len(pts)
+    for tag, k in (('other', 1), ('recpoint', 0)):
+        xs = [np.array(p[k], dtype=float) for p in pts]
+        # forward reference: one direction per input entry
+        sizes = [x.size for x in xs]
+        Ntot = sum(sizes)
+        datas = []
+        off = 0
+        for x in xs:
+            d = np.zeros((2, Ntot) + x.shape)
+            d[0] = x
+            d1 = d[1].reshape(Ntot, x.size)        # (a view: also right for 0-d inputs)
+            for j in range(x.size):
+                d1[off + j, j] = 1.0
+            off += x.size
+            datas.append(UTPM(d))
+        try:
+            y = PG.run(case['prog'], datas)[case['out']]
+        except NotImplementedError as e:
+            raise Rejected(str(e))
+        except Exception as e:
+            raise Inconclusive('forward reference failed: %s' % type(e).__name__)
+        g = y.data[1]
+        refs = []
+        off = 0
+        for x in xs:
+            refs.append(g[off:off + x.size].reshape(x.shape))
+            off += x.size
+        # graph recorded at probe point 0 (ndarray inputs)
+        cg = CGraph()
+        try:
+            fins = [Function(np.array(p[0], dtype=float)) for p in pts]
+            regs = guard(PG.run, case['prog'], fins)
+        finally:
+            cg.trace_off()
+        cg.independentFunctionList = fins
+        cg.dependentFunctionList = [regs[case['out']]]
+        got = guard(cg.gradient, [x.copy() for x in xs])
+        if not isinstance(got, list) or len(got) != nin:
+            raise Violation('gradient(list of %d arrays) returned %s of length %s' % (nin, type(got).__name__, getattr(got, '__len__', lambda: None)()))
+        for i, (a, b) in enumerate(zip(got, refs)):
+            _cmp(a, b, 'gradient([x1,..]) component %d at %s point' % (i, tag), stats)
+
+
+@st.composite
+def gradient_list_cases(draw, tier):
+    allow_bcast = not KF.is_open('KF-setitem-broadcast-reverse')
+    pr = draw(PG.programs(n_inputs=(2, 2), in_rank=(1, 2), max_side=3, max_len=6, min_len=1, out='scalar', K=4,
+                          allow_set_broadcast=allow_bcast, allow_ones=False))
+    case = dict(pr)
+    case['kind'] = 'scalar-list'
+    case['recDP'] = (1, 1)
+    return case
+
+
 @st.composite
 def driver_cases(draw, tier, kind, first=None, families=None, max_len=8, poly=False):
     allow_bcast = not KF.is_open('KF-setitem-broadcast-reverse')
@@ -302,4 +360,7 @@ def buckets(tier):
                          (lambda kind=kind: driver_cases(tier, kind, families=PG.FAMILIES_POLY, max_len=7, poly=True)),
                          prop_drivers, {'quick': 25, 'thorough': 600}, nontrivial=_nontrivial, classes=_classes,
                          shards={'quick': 4, 'thorough': 8}, weight=6.0))
+    bl.append(Bucket('gradient-list', (lambda: gradient_list_cases(tier)), prop_gradient_list, {'quick': 25, 'thorough': 500},
+                     nontrivial=(lambda case: 'nonlinear' in PG.features(case)),
+                     classes=(lambda case: ['kind=scalar-list'] + PG.features(case)), shards={'quick': 4, 'thorough': 8}, weight=4.0))
     return bl
